@@ -416,6 +416,27 @@ impl World {
         for p in self.psp.values() {
             pin_check("s", p.pin_id, p.root, Some(p.fp), self.db.as_ref().unwrap(), out);
         }
+        // every reader and savepoint the harness holds is counted by the tracker on its transaction
+        // id (the tracker may count more: pending non-durable commits pin their durable ancestor)
+        {
+            let mut need: BTreeMap<u64, u64> = BTreeMap::new();
+            for r in &self.readers {
+                *need.entry(r.id).or_insert(0) += 1;
+            }
+            for s in &self.sps {
+                *need.entry(s.id).or_insert(0) += 1;
+            }
+            for p in self.psp.values() {
+                *need.entry(p.pin_id).or_insert(0) += 1;
+            }
+            let have: BTreeMap<u64, u64> = snap.tracker.live_read_transactions.iter().map(|(k, v)| (*k as u64, *v as u64)).collect();
+            for (id, n) in need {
+                let h = have.get(&id).copied().unwrap_or(0);
+                if h < n {
+                    out.oracle_fail(format!("pin-count|after {after}: {n} readers / savepoints are held on transaction {id} but the tracker counts {h}"));
+                }
+            }
+        }
         let dur_id = snap.mem.durable_transaction_id;
         let prev_dfp = self.durable_fp.filter(|x| x.0 == dur_id);
         pin_check("d", dur_id, snap.mem.durable_data_root, prev_dfp.map(|x| x.1), self.db.as_ref().unwrap(), out);
@@ -1145,6 +1166,53 @@ pub(crate) fn gen_history(rng: &mut Rng, focus: &str, thorough: bool, page: usiz
             Step::ListPsp
         };
         steps.push(step);
+    }
+    if focus == "c06" || focus == "c07" || focus == "c02" {
+        // savepoint families: siblings created in one transaction (they share one transaction id),
+        // survivors after one of them is deleted / dropped, across reopen and crash, under churn
+        let mk = |rng: &mut Rng, durability, sp_ops: Vec<SpOp>, end: End| {
+            let n = rng.range(2, 7) as usize;
+            Step::Txn(TxnSpec { durability, two_phase: rng.chance(1, 3), quick_repair: rng.chance(1, 4), sp_ops, ops: gen_ops(rng, page, n), end })
+        };
+        for _ in 0..rng.range(0, 2) {
+            let kinds: Vec<SpOp> = match rng.below(4) {
+                0 => vec![SpOp::Persistent, SpOp::Persistent],
+                1 => vec![SpOp::Ephemeral, SpOp::Ephemeral],
+                2 => vec![SpOp::Persistent, SpOp::Ephemeral],
+                _ => vec![SpOp::Ephemeral, SpOp::Persistent],
+            };
+            let mut block = vec![mk(rng, Durability::Immediate, kinds, End::Commit)];
+            if rng.chance(1, 2) {
+                let d = if rng.chance(1, 2) { Durability::None } else { Durability::Immediate };
+                block.push(mk(rng, d, vec![], End::Commit));
+            }
+            match rng.below(3) {
+                0 => block.push(Step::Reopen),
+                1 => block.push(if focus == "c02" { Step::Reopen } else { Step::CrashReopen }),
+                _ => {}
+            }
+            // one sibling goes away
+            if rng.chance(1, 2) {
+                let which = rng.below(3) as usize;
+                block.push(mk(rng, Durability::Immediate, vec![SpOp::DeletePersistent(which)], End::Commit));
+            } else {
+                block.push(Step::DropSavepoint(rng.below(3) as usize));
+            }
+            // churn that frees and reuses pages
+            for _ in 0..rng.range(2, 5) {
+                let d = if rng.chance(1, 3) { Durability::None } else { Durability::Immediate };
+                block.push(mk(rng, d, vec![], End::Commit));
+            }
+            // the survivor is restored (committed or aborted)
+            let restore = if rng.chance(1, 2) { SpOp::RestorePersistent(rng.below(3) as usize) } else { SpOp::RestoreEphemeral(rng.below(3) as usize) };
+            let end = if rng.chance(1, 4) { End::Abort } else { End::Commit };
+            block.push(mk(rng, Durability::Immediate, vec![restore], end));
+            block.push(Step::CheckIntegrity);
+            let at = rng.below(steps.len() as u64 + 1) as usize;
+            let tail = steps.split_off(at);
+            steps.extend(block);
+            steps.extend(tail);
+        }
     }
     if focus == "c13" {
         // compaction attempts against each kind of pin, alone and on top of pending non-durable
